@@ -195,6 +195,49 @@ class FoldError(Exception):
     pass
 
 
+def class_table(pkg, cname, attr):
+    """The list a class-level table holds, wherever its entries are written: a literal in the class body, a module-level constant of
+    the class's file (bound once) it names, a concatenation / list(..) / tuple(..) / sorted-free combination of such.  Raises
+    AnalysisError (UNRECOGNISED) when the table is built in any other way, MISSING when it vanished."""
+    from ..core import AnalysisError, MISSING
+    ci = pkg.cls(cname)
+    owner, node = pkg.resolve_attr(cname, attr)
+    if node is None:
+        raise AnalysisError(f"class-level table {cname}.{attr} vanished", (ci.file, ci.node.lineno), MISSING)
+    mod = pkg.modules[pkg.classes[owner].file]
+
+    def once(name):
+        vals = [st.value for st in mod.body if isinstance(st, (ast.Assign, ast.AnnAssign)) and st.value is not None
+                for t in (st.targets if isinstance(st, ast.Assign) else [st.target]) if isinstance(t, ast.Name) and t.id == name]
+        return vals[0] if len(vals) == 1 else None
+
+    def ev(e, depth=0):
+        if depth > 6 or e is None:
+            raise ValueError
+        try:
+            return list(ast.literal_eval(e)) if isinstance(e, (ast.List, ast.Tuple)) else ast.literal_eval(e)
+        except Exception:
+            pass
+        if isinstance(e, (ast.List, ast.Tuple)):
+            out = []
+            for x in e.elts:
+                out += ev(x.value, depth + 1) if isinstance(x, ast.Starred) else [ev(x, depth + 1)]
+            return out
+        if isinstance(e, ast.Name):
+            return ev(pkg.classes[owner].attrs.get(e.id) or once(e.id), depth + 1)
+        if isinstance(e, ast.Attribute) and isinstance(e.value, ast.Name) and e.value.id in (cname, owner):
+            return ev(pkg.resolve_attr(cname, e.attr)[1], depth + 1)
+        if isinstance(e, ast.BinOp) and isinstance(e.op, ast.Add):
+            return list(ev(e.left, depth + 1)) + list(ev(e.right, depth + 1))
+        if isinstance(e, ast.Call) and isinstance(e.func, ast.Name) and e.func.id in ("list", "tuple") and len(e.args) == 1 and not e.keywords:
+            return list(ev(e.args[0], depth + 1))
+        raise ValueError
+    try:
+        return list(ev(node))
+    except (ValueError, TypeError):
+        raise AnalysisError(f"the class-level table {cname}.{attr} is not a literal (nor built from literal constants): {ast.unparse(node)[:80]}", (ci.file, getattr(node, "lineno", 0)))
+
+
 def fold(v, env, flow=None):
     """Constant folding of a small IR expression under a binding of some sub-terms (here: the charge)."""
     if v in env:
@@ -252,8 +295,8 @@ def _unescape(pat):
 
 def _r1(ctx, pkg, rule):
     sp = pkg.cls("Species")
-    elems = ast.literal_eval(sp.attrs["default_elements"])
-    pseudo = ast.literal_eval(sp.attrs["default_pseudoelements"])
+    elems = class_table(pkg, "Species", "default_elements")
+    pseudo = class_table(pkg, "Species", "default_pseudoelements")
     ctx.floor("R1", "default symbols", len(elems) + len(pseudo), 30)
     bad = {}
     for s in elems + pseudo:
@@ -313,7 +356,7 @@ def _r3(ctx, pkg):
         ctx.ok("R3", "symbol tables", (SP, pfn.lineno), "the symbol tables are no longer used both as patterns and as literals")
         return
     for tab in ("default_elements", "default_pseudoelements"):
-        for s in ast.literal_eval(sp.attrs[tab]):
+        for s in class_table(pkg, "Species", tab):
             lit = _unescape(s)
             ok = lit == s
             ctx.check(ok, "R3", f"{tab}:{s!r}", (SP, sp.node.lineno),
@@ -673,8 +716,8 @@ def _r6(ctx, pkg, rule):
     # grackle table
     ep = pkg.cls("EnzoPatch")
     ctx.saw(PATCH, "EnzoPatch")
-    names = ast.literal_eval(ep.attrs["grackle_species_name"])
-    aliases = ast.literal_eval(ep.attrs["grackle_defined_alias"])
+    names = class_table(pkg, "EnzoPatch", "grackle_species_name")
+    aliases = class_table(pkg, "EnzoPatch", "grackle_defined_alias")
     ctx.check(len(names) == len(aliases), "R6", "grackle tables:length", (PATCH, ep.node.lineno), "one alias per grackle species", found=f"{len(names)} vs {len(aliases)}")
     if rule.get("ok"):
         for nm, al in zip(names, aliases):
@@ -1337,4 +1380,19 @@ BENIGN += [
 MUTANTS += [
     {"name": "species-pool-chained-list", "file": NETF, "old": _POOL_OLD,
      "new": "        speclist = sorted(itertools.chain(self._reactants | self._products, self._required_species))\n\n        connection = {sp: set() for sp in speclist}\n", "rules": ["R9"]},
+]
+BENIGN += [
+    {"name": "index-loop-over-positions", "file": MACROS, "old": "{% for spec in network.species %}\n#define IDX_{{ spec.alias }} {{ loop.index0 }}",
+     "new": "{% for slot in range(network.species | length) %}\n#define IDX_{{ network.species[slot].alias }} {{ slot }}"},
+]
+MUTANTS += [
+    {"name": "index-loop-over-positions-one-based", "file": MACROS, "old": "{% for spec in network.species %}\n#define IDX_{{ spec.alias }} {{ loop.index0 }}",
+     "new": "{% for slot in range(network.species | length) %}\n#define IDX_{{ network.species[slot].alias }} {{ slot + 1 }}", "rules": ["R4"]},
+    {"name": "index-loop-over-positions-of-other-sequence", "file": MACROS, "old": "{% for spec in network.species %}\n#define IDX_{{ spec.alias }} {{ loop.index0 }}",
+     "new": "{% for slot in range(network.species | length) %}\n#define IDX_{{ (network.species | sort(attribute='name') | list)[slot].alias }} {{ slot }}", "rules": ["R4"]},
+]
+BENIGN += [
+    {"name": "pseudo-element-table-from-module-constants", "edits": [
+        {"file": SP, "old": '        "c-",\n        "l-",\n        r"\\*",\n        "g",\n    ]\n', "new": '    ] + _ISOMER_MARKS + [r"\\*", "g"]\n'},
+        {"file": SP, "old": "class Species:\n", "new": '_ISOMER_MARKS = ["c-", "l-"]\n\n\nclass Species:\n'}]},
 ]
